@@ -734,6 +734,128 @@ def rule_move(chk, fb):
         chk.ob(rid, "%s:remove-before-insert" % d, ok, where=fb.loc(d), detail="no removal is reachable after a re-insertion: %s" % ok)
 
 
+OFFSET_ARGS = {T_COORD: {3, 5}, T_SHEET: {4, 6}, T_VALUE: {3}}
+CMP_NAMES = ("eq", "ne", "lt", "le", "gt", "ge", "cmp", "partial_cmp")
+
+
+def call_family(t):
+    """Trait of the family a call belongs to, by the trait method it resolves from (or the 2-sheet inherent methods)."""
+    o = t.get("orig", t.get("fn", ""))
+    for tr in FAMILY:
+        if o.startswith(tr + "::") or ("<" in t.get("fn", "") and (" as " + tr + ">") in t.get("fn", "")):
+            return tr
+    if "with_2sheet" in o:
+        return "2sheet"
+    return None
+
+
+def rule_unconditional(chk, fb, traits=(T_COORD, T_VALUE), prefix="C07.c", offset_args=None):
+    rid = chk.rule(
+        prefix + ".uncond",
+        "fan-out is unconditional: inside an adjustment impl a same-family call on a component is control-dependent only on iteration, on the presence of an optional component, on `offset == 0` tests of its own parameters, or (leaf address) on equality of its own sheet-name field with the edited sheet — never on a comparison involving positions, extents or other data",
+        floor=10,
+    )
+    offs = dict(OFFSET_ARGS)
+    if offset_args:
+        offs.update(offset_args)
+    for trait in traits:
+        for adt, meths in sorted(impl_methods(fb, trait).items()):
+            for role in ("insert", "remove"):
+                d = meths.get(role)
+                if not d or d not in fb.mir:
+                    continue
+                b = fb.mir[d]
+                cfg = CFG(b)
+                fl = Flow(fb, b)
+                n = 0
+                for bi, t in fl.calls():
+                    if not family_call(t, role):
+                        continue
+                    fam = call_family(t)
+                    same = fam == trait or (trait in (T_COORD, T_VALUE) and fam in (T_COORD, T_VALUE)) or (trait not in FAMILY and fam == "2sheet") or (fam == "2sheet" and trait == T_SHEET)
+                    if not same:
+                        continue
+                    bad = []
+                    for x in cfg.control_deps_transitive(bi):
+                        sw = b["blocks"][x]["t"]
+                        at = fl.atoms(sw["op"])
+                        cmps = [a for a in at if a[0] == "call" and a[1].split("::")[-1] in CMP_NAMES]
+                        bincmp = False
+                        if "p" in sw["op"]:
+                            for dd in fl.defs.get(sw["op"]["p"]["l"], []):
+                                if dd[0] == "rv" and dd[3]["k"] == "bin" and dd[3]["op"] in ("Lt", "Le", "Gt", "Ge", "Eq", "Ne") :
+                                    # discriminant tests of Option are Eq on discr: allow only when an operand is a discriminant
+                                    ops_at = fl.atoms(dd[3]["a"]) | fl.atoms(dd[3]["b"])
+                                    if not any(_is_discr_def(fl, o) for o in (dd[3]["a"], dd[3]["b"])):
+                                        bincmp = True
+                        if not cmps and not bincmp:
+                            continue
+                        args = {a[1] for a in at if a[0] == "arg"}
+                        fields = [a for a in at if a[0] == "field"]
+                        others = [a for a in at if a[0] == "call" and a[1].split("::")[-1] not in CMP_NAMES + ("deref", "as_ref", "borrow", "as_str")]
+                        if args and args <= offs.get(trait, set()) and not fields and not others:
+                            continue  # offset-zero test
+                        if cmps and all(c[1].split("::")[-1] in ("eq", "ne") for c in cmps) and not bincmp and not others and any(f[1] == adt and "str" in fb.field_types(adt).get(f[2], "") for f in fields) and len(args - {1}) == 1:
+                            continue  # leaf: own sheet-name field == edited sheet
+                        bad.append("%s:%s" % (b["file"], sw["ln"]))
+                    chk.touch(d)
+                    chk.ob(rid, "%s[%s].%s#%d" % (adt.split("::")[-1], trait.split("::")[-1], role, n), not bad, where="%s:%s" % (b["file"], t["ln"]),
+                           detail="call %s is %s" % (t.get("orig", t["fn"]).split("::")[-1], "guarded only by iteration / presence / offset-zero tests" if not bad else "additionally guarded by a data comparison at %s: content for which it is false is silently not relocated" % bad))
+                    n += 1
+
+
+def _is_discr_def(fl, o):
+    if "p" not in o:
+        return False
+    for dd in fl.defs.get(o["p"]["l"], []):
+        if dd[0] == "rv" and dd[3]["k"] == "discr":
+            return True
+    return False
+
+
+def rule_move_clear(chk, fb):
+    rid = chk.rule(
+        "C07.e.clear",
+        "move clears the whole rectangle: the removals of the move path (source and translated destination coordinate) are driven by an enumeration of every coordinate of the range, not by the cells that happen to exist",
+        floor=2,
+    )
+    enum_fns = {d for d, b in fb.mir.items() if b["kind"] == "Fn" and b["argc"] == 1 and fb.ty(b["locals"][1]["t"]) in ("&str", "T", "S") and fb.ty(b["locals"][0]["t"]) == "std::vec::Vec<(u32, u32)>"}
+    for d, b in sorted(fb.mir.items()):
+        if b.get("self_ty") != "structs::worksheet::Worksheet" or b["kind"] != "AssocFn":
+            continue
+        tys = [fb.ty(b["locals"][i]["t"]) for i in range(1, b["argc"] + 1)]
+        if tys.count("&i32") != 2 or "bool" not in tys:
+            continue
+        # removals inside closures / body
+        for bd in bodies_with_closures(fb, d):
+            bb = fb.mir[bd]
+            fl = Flow(fb, bb)
+            rem = [(bi, t) for bi, t in fl.calls(lambda t: t.get("fn", "").endswith("Cells::remove"))]
+            if not rem:
+                continue
+            # what drives this body: for a closure, the iterator it is passed to in the parent
+            driver_ok = False
+            drv = "?"
+            if bd != d:
+                pfl = Flow(fb, b)
+                for bi, t in pfl.calls():
+                    for a in t["args"][1:]:
+                        if any(x[0] == "cfn" and x[1] == bd for x in pfl.atoms(a)):
+                            at = pfl.atoms(t["args"][0])
+                            calls = {x[1] for x in at if x[0] == "call"}
+                            drv = sorted(c.split("::")[-1] for c in calls if c in fb.mir)
+                            driver_ok = bool(calls & enum_fns) and not any("Cells::iter" in c or "cell_collection" in c for c in calls)
+            else:
+                for bi, t in rem:
+                    at = fl.atoms(t["args"][1]) | fl.atoms(t["args"][2])
+                    calls = {x[1] for x in at if x[0] == "call"}
+                    drv = sorted(c.split("::")[-1] for c in calls if c in fb.mir)
+                    driver_ok = bool(calls & enum_fns)
+            chk.touch(d)
+            for n, (bi, t) in enumerate(rem):
+                chk.ob(rid, "%s:remove#%d" % (d, n), driver_ok, where="%s:%s" % (bb["file"], t["ln"]), detail="removal driven by %s; full-rectangle enumerators: %s" % (drv, sorted(x.split("::")[-1] for x in enum_fns)))
+
+
 def run(chk, fb, tier):
     rule_scalar(chk, fb)
     rule_range(chk, fb, tier)
@@ -741,5 +863,7 @@ def run(chk, fb, tier):
     rule_other_sheets(chk, fb)
     rule_axes(chk, fb)
     rule_move(chk, fb)
+    rule_move_clear(chk, fb)
+    rule_unconditional(chk, fb)
     chk.assume("std collections (ThinVec/Vec retain, iteration) behave as documented")
     chk.note("not decided: equality with a reference grid after arbitrary histories (value-level)")
